@@ -15,7 +15,7 @@ from . import carvecommon as K
 from . import dbcommon as C
 
 ID = "C09"
-LEAN_MODULES = ["SqliteDissect.Properties.C09", "SqliteDissect.Properties.GenFun"]
+LEAN_MODULES = ["SqliteDissect.Properties.C09", "SqliteDissect.Properties.C09Freeblock", "SqliteDissect.Properties.GenFun"]
 TRANSLATORS = list(P8.TRANSLATORS)
 RULE = ("deletion grid: page size x column shape (integer/text/real, rowid alias first, text first with equal and with "
         "varying lengths, constant-width first column, single column, blob first, rowids above 127) x position in the page "
@@ -61,6 +61,8 @@ def shape_rows(shape, i, r):
         return (i % 2, "flag-%d" % i)
     if shape == "flags":                          # every column 0/1 (serial types 8/9): the record body is empty
         return (1,) + tuple(((i * 37) >> k) & 1 for k in range(5))      # (first column the same in every row)
+    if shape == "tiny_int":                       # first column 0 / 1 / a one-byte integer: serial types 8, 9 (no content) and 1
+        return ([5, 0, 1, 0, 7, 1][i % 6], 40 + i % 80)
     if shape == "nullable":
         return (None if i % 3 == 0 else 100 + i, "n%d" % i, None if i % 4 == 0 else "z" * (i % 9))
     raise KeyError(shape)
@@ -78,6 +80,7 @@ DECLS = {
     "blob_text_int": "a BLOB, b TEXT, c INTEGER",
     "bool_text": "a INTEGER, b TEXT",
     "nullable": "a INTEGER, b TEXT, c TEXT",
+    "tiny_int": "a INTEGER, b INTEGER",
     "flags": "a INTEGER, b INTEGER, c INTEGER, d INTEGER, e INTEGER, f INTEGER",
 }
 SHAPES = list(DECLS)
@@ -85,25 +88,33 @@ POSITIONS = ["first", "middle", "last", "two_apart", "run", "all"]
 MODES = ["db", "wal", "journal"]
 
 
-def grid_spec(shape, ps, nrows, position, mode, r, enc="UTF-8", auto_vacuum=0):
+def grid_spec(shape, ps, nrows, position, mode, r, enc="UTF-8", auto_vacuum=0, rowid_base=0):
+    """rowid_base: the rows get the explicit row ids rowid_base + 1 … (three-byte row id varints from 16384 on: the first
+    serial type of a freed cell then lies two bytes behind the freeblock header)"""
     setup = [f"CREATE TABLE t({DECLS[shape]})"]
+    names = [d.split()[0] for d in DECLS[shape].split(", ")]
     for i in range(1, nrows + 1):
-        setup.append("INSERT INTO t VALUES(%s)" % ",".join(P8.q(v) for v in shape_rows(shape, i, r)))
+        vals = ",".join(P8.q(v) for v in shape_rows(shape, i, r))
+        if rowid_base:
+            setup.append(f"INSERT INTO t(rowid,{','.join(names)}) VALUES({rowid_base + i},{vals})")
+        else:
+            setup.append(f"INSERT INTO t VALUES({vals})")
+    b = rowid_base
     mid = max(1, nrows // 2)
     if position == "first":
-        dele = ["DELETE FROM t WHERE rowid=1"]
+        dele = [f"DELETE FROM t WHERE rowid={b + 1}"]
     elif position == "middle":
-        dele = [f"DELETE FROM t WHERE rowid={mid}"]
+        dele = [f"DELETE FROM t WHERE rowid={b + mid}"]
     elif position == "last":
-        dele = [f"DELETE FROM t WHERE rowid={nrows}"]
+        dele = [f"DELETE FROM t WHERE rowid={b + nrows}"]
     elif position == "two_apart":
-        dele = [f"DELETE FROM t WHERE rowid={max(1, mid - 2)}", f"DELETE FROM t WHERE rowid={min(nrows, mid + 2)}"]
+        dele = [f"DELETE FROM t WHERE rowid={b + max(1, mid - 2)}", f"DELETE FROM t WHERE rowid={b + min(nrows, mid + 2)}"]
     elif position == "run":
-        dele = [f"DELETE FROM t WHERE rowid BETWEEN {mid} AND {min(nrows, mid + max(2, nrows // 3))}"]
+        dele = [f"DELETE FROM t WHERE rowid BETWEEN {b + mid} AND {b + min(nrows, mid + max(2, nrows // 3))}"]
     else:
         dele = ["DELETE FROM t"]
     return {"page_size": ps, "mode": mode, "shape": shape, "position": position, "setup": setup, "steps": [dele],
-            "encoding": enc, "auto_vacuum": auto_vacuum}
+            "encoding": enc, "auto_vacuum": auto_vacuum, "rowid_base": rowid_base}
 
 
 def grid(ctx):
@@ -175,12 +186,21 @@ def judge(pre_cell, pre_page, post_page, region, sig, first_types):
     cands = [t for t in cols[0] if t < 0 or K.serial_size(t) == lost]
     by_size = exact_fb and len(cands) == 1
     expect_first = True
+    undetermined = False
     if how == "partial":
         expect_first = first_intact or same or by_size
         if not expect_first:
-            return {"skip": "first-column-undetermined"}
+            if kind != "freeblock":
+                return {"skip": "first-column-undetermined"}
+            # the first column cannot be known, but every other column still can: the record must be reported with the
+            # stored values in the columns after the first (a wrong guess of a different width shifts them all: C09-07)
+            undetermined = True
+    # offset of the partial match inside the freeblock content (0: the first serial type was overwritten by the freeblock
+    # header, 1: it is the byte in front of the match, >= 2: further bytes of the cell header survived in front of it)
+    match_offset = (hs + first_len - (pre_cell["start"] + 4)) if kind == "freeblock" else None
     return {"how": how, "expect_first": expect_first, "same": same, "by_size": by_size, "exact_freeblock": exact_fb,
-            "first_intact": first_intact, "kind": kind, "hs": hs, "he": he}
+            "first_intact": first_intact, "kind": kind, "hs": hs, "he": he, "match_offset": match_offset,
+            "undetermined": undetermined}
 
 
 def values_of(cell):
@@ -206,7 +226,7 @@ def check_scenario(ctx, sc_dir, spec, tag):
         return
     ctx.branch(f"grid:{spec['mode']}:{spec.get('shape')}:{spec.get('position')}")
     case = {"tag": tag, "spec": spec if len(json.dumps(spec)) < 2500 else
-            {k: spec[k] for k in ("page_size", "mode", "shape", "position", "encoding") if k in spec} | {"too_long": True,
+            {k: spec[k] for k in ("page_size", "mode", "shape", "position", "encoding", "rowid_base") if k in spec} | {"too_long": True,
              "nrows": len(spec["setup"]) - 1, "steps": spec["steps"]}}
     # correspondence with the model on the same files (and the C08 oracle's machinery stays in C08)
     try:
@@ -337,7 +357,7 @@ def check_scenario(ctx, sc_dir, spec, tag):
             ctx.branch(f"looked-for:{entry_point}:{reg[0]}:{v['how']}")
             cells, exc = results.get(entry_point, ([], None))
             desc = dict(case, rowid=rid, entry=entry_point, location=reg[0], how=v["how"], want=want,
-                        verdict={k: v[k] for k in ("expect_first", "same", "by_size", "exact_freeblock", "first_intact")},
+                        verdict={k: v[k] for k in ("expect_first", "same", "by_size", "exact_freeblock", "first_intact", "match_offset", "undetermined")},
                         page=leaf, page_rewritten_in_last_version=(leaf in set(vh.versions[last].updated_page_numbers)),
                         first_column_types=sorted(first_types)[:12],
                         first_column_variable=any(t >= 12 for t in first_types),
@@ -392,6 +412,10 @@ FORCED = [
     ("flags", 512, 40, "middle", "wal", 0),
     # a TEXT / BLOB first column whose serial type SURVIVES in the freeblock: the row id takes two bytes (128..16383), so
     # the first serial type is the fifth byte of the cell, behind the freeblock header
+    # the freeblock size leaves two candidates for the lost first serial type (8 and 9, both without content) beside one of
+    # another width (1): finding C09-07 when the fall-back picks the wider one
+    ("tiny_int", 1024, 12, "two_apart", "db", 0),
+    ("tiny_int", 512, 40, "run", "wal", 0),
     # (not the last row: a freed cell at the start of the content area becomes unallocated space, not a freeblock)
     ("textvar_int", 1024, 320, "two_apart", "db", 0),
     ("blob_text_int", 4096, 320, "middle", "wal", 0),
@@ -399,9 +423,22 @@ FORCED = [
 ]
 
 
+# three-byte row ids (>= 16384): the freed cell keeps payload size, one row id byte and the header size in front of the first
+# serial type, the partial match starts at offset 2 of the freeblock content.  TEXT / BLOB first columns: finding C09-06;
+# the fixed-width first column is the control (recovered)
+FORCED_ROWIDS = [
+    ("textvar_int", 1024, 40, "two_apart", "db", 20000),
+    ("blob_text_int", 4096, 40, "middle", "wal", 20000),
+    ("int_text_real", 1024, 40, "two_apart", "db", 20000),
+]
+
+
 def run(ctx):
     sc = C.Scratch()
     try:
+        for i, (shape, ps, n, pos, mode, base) in enumerate(FORCED_ROWIDS):
+            check_scenario(ctx, sc.dir, grid_spec(shape, ps, n, pos, mode, ctx.rng, rowid_base=base), f"c09r{i}")
+            ctx.branch(f"forced-rowid:{shape}:{mode}:{base}")
         for i, (shape, ps, n, pos, mode) in enumerate(WITNESSES):
             check_scenario(ctx, sc.dir, grid_spec(shape, ps, n, pos, mode, ctx.rng), f"c09w{i}")
         for i, (shape, ps, n, pos, mode, av) in enumerate(FORCED):
@@ -437,7 +474,7 @@ def replay(ctx, data):
         sc = C.Scratch()
         try:
             full = grid_spec(spec["shape"], spec["page_size"], spec["nrows"], spec["position"], spec["mode"], ctx.rng,
-                             spec.get("encoding", "UTF-8"))
+                             spec.get("encoding", "UTF-8"), rowid_base=spec.get("rowid_base", 0))
             check_scenario(ctx, sc.dir, full, "replay")
         finally:
             sc.close()
@@ -457,6 +494,24 @@ def _m_variable_first(f):
             and not (c.get("location") == "freeblock" and (c.get("verdict") or {}).get("first_intact") is True))
 
 
+def _m_variable_first_behind_header(f):
+    """C09-06: TEXT / BLOB first column whose serial type survived two or more bytes behind the freeblock header"""
+    c = _c(f)
+    v = c.get("verdict") or {}
+    return (f.get("kind") == "not-recalled" and c.get("location") == "freeblock" and c.get("how") == "partial"
+            and c.get("first_column_variable") is True and v.get("first_intact") is True and (v.get("match_offset") or 0) >= 2)
+
+
+def _m_undetermined_first_shifts_rest(f):
+    """C09-07: first serial type lost, the freeblock size leaves several candidates, the fall-back guesses one of another
+    width and every following column is read from shifted bytes"""
+    c = _c(f)
+    v = c.get("verdict") or {}
+    return (f.get("kind") == "not-recalled" and c.get("location") == "freeblock" and c.get("how") == "partial"
+            and v.get("undetermined") is True and v.get("first_intact") is False and v.get("match_offset") == 0
+            and c.get("first_column_variable") is False)
+
+
 def _m_freelist_not_rewritten(f):
     c = _c(f)
     return (f.get("kind") == "not-recalled" and c.get("location") == "freelist" and c.get("entry") == "iterator"
@@ -473,4 +528,6 @@ MATCHERS = {
     "c09_variable_first_column": _m_variable_first,
     "c09_freelist_page_not_rewritten": _m_freelist_not_rewritten,
     "c09_single_column_bogus_collision": _m_single_column_collision,
+    "c09_variable_first_behind_header": _m_variable_first_behind_header,
+    "c09_undetermined_first_shifts_rest": _m_undetermined_first_shifts_rest,
 }
